@@ -802,6 +802,13 @@ func (s *engSession) propose(i int, fs []flap.VerifFlight, tripEnd, now uint64) 
 			s.fail("C09", sig, what)
 		})
 	}
+	// C10: no room while the trip of the oldest of ten promises has not ended
+	if tb, ok := s.get(i); ok && code == 0 {
+		es := tb.Promises.VerifEntries()
+		if es[9].TripStart != 0 && uint64(es[9].TripEnd) >= now {
+			s.fail("C10", "proposal-accepted-without-room", fmt.Sprintf("the book holds ten promises and the trip of the oldest (%d..%d, clearance %d) has not ended at %d, yet the proposal was accepted and drops it", es[9].TripStart, es[9].TripEnd, es[9].Clearance, now))
+		}
+	}
 	s.coq = append(s.coq, fmt.Sprintf("EPropose %s %s %d %d %d %d%%nat %d", s.trav[i].key, coqFlights(fs), tripEnd, now, code, max0(slot), h))
 	s.ops = append(s.ops, eOp{"op": "propose", "t": i, "fs": fs, "tripEnd": tripEnd, "now": now, "res": code, "slot": slot})
 	s.stat["proposals"]++
@@ -837,6 +844,14 @@ func (s *engSession) make(i int, slot int, now uint64, issuedVersion uint64) int
 	if code == 0 {
 		if !hasAfter || hashBook(7, after.Promises.VerifEntries()) != hashBook(7, s.props[slot].VerifEntries()) {
 			s.fail("C10", "make-installed-other-promises", "Make succeeded but the stored promises differ from the proposed ones")
+		}
+		// ... and nothing but the promises: the rest of the record is what was stored just before Make
+		if had && hasAfter {
+			cp := after
+			cp.Promises = before.Promises
+			if hashTrav(&cp) != hashTrav(&before) {
+				s.fail("C10", "make-changed-more-than-promises", fmt.Sprintf("Make succeeded and changed more than the promises: balance %v -> %v, kept clearance %d -> %d, mid-trip %v -> %v (record read just before Make vs just after)", float64(before.Balance), float64(after.Balance), before.Kept.Clearance, after.Kept.Clearance, midTripOf(&before), midTripOf(&after)))
+			}
 		}
 		s.stat["makes_ok"]++
 	} else {
